@@ -234,4 +234,18 @@ theorem C05_bytes (pre body post : Bytes) (size count cursor l : Nat) (hb : body
 example : (run ⟨5, 0⟩ [.read 2, .seek (-1) 2, .read 9, .read 1, .seek 5 0, .next 0]).2 =
     [.slice 0 2, .cursor 4, .slice 4 1, .slice 5 0, .indexError, .stop] := by decide
 
+/-- the reader model's `readPoints` is the arithmetic of `LasReader.read_points` as generated from the source -/
+theorem readPoints_generated (s : RState) (n : Int) :
+    readPoints s n = match Gen.Reader.read_points s.count s.cursor n with
+      | none => (s, s.cursor.toNat, 0)
+      | some (k, c) => ({ s with cursor := c }, s.cursor.toNat, k.toNat) := by
+  unfold readPoints Gen.Reader.read_points
+  simp only
+  by_cases h1 : (s.count : Int) - s.cursor ≤ 0
+  · simp [h1]
+  · by_cases h2 : n < 0
+    · simp [h1, h2]
+    · simp [h1, h2]
+
+
 end LasModel.Props.C05
